@@ -176,6 +176,31 @@ async fn check_rows(
         };
         let sigma = hex::encode(row.to_protocol_signature().get_concatenation_signature_sigma().to_bytes());
         by_sigma.entry(sigma).or_default().push(row.party_id.clone());
+        if valid_under_party(w, epoch, p, row, msg) && !om.is_certified {
+            // a recorded contribution does not shrink: the signature does not cover its index list,
+            // so anybody can submit a copy restricted to some of the indexes under the party's name
+            let now: BTreeSet<u64> = row.to_protocol_signature().get_concatenation_signature_indices().into_iter().collect();
+            let k = (format!("{entity:?}"), row.party_id.clone());
+            let mut rec = w.recorded_indexes.borrow_mut();
+            if let Some(before) = rec.get(&k)
+                && !before.is_subset(&now)
+            {
+                out.push(Violation {
+                    key: "C16/recorded-contribution-reduced-by-resubmitted-copy".into(),
+                    what: format!(
+                        "the signature recorded for party #{p} contributed the {} indexes {:?}; after a further submission under its name the recorded signature contributes only {:?}",
+                        before.len(),
+                        before,
+                        now
+                    ),
+                    replay: ctx.clone(),
+                });
+            }
+            let e = rec.entry(k).or_default();
+            if now.is_superset(e) {
+                *e = now;
+            }
+        }
         if !valid_under_party(w, epoch, p, row, msg) {
             // whose key does verify it?
             let real: Vec<usize> = (0..w.fixture.signers_fixture().len()).filter(|q| valid_under_party(w, epoch, *q, row, msg)).collect();
